@@ -627,3 +627,28 @@ def run_invariances(ctx: Ctx) -> None:
                     return False, f"{name}({a} * source, target) differs from {name}(source, target): not invariant to intensity scale"
             return True, ""
         _guard(ctx, "T16.invariance", name, f, f"loss={name}", th)
+
+        def thb(f=f, kw=kw, name=name):
+            # batches: every image pair is scored on its own — an intensity map applied to one item changes nothing, and the
+            # batched 'none' output equals the per-pair evaluations
+            reset_relations()
+            fresh_facts()
+            it = make_interp(ctx)
+            shape = [2, 1, 2, 2] if name == "ncc_loss" else [2, 1, 3, 3]
+            x, y = STensor.symbols("x", shape), STensor.symbols("y", shape)
+            be = Rat.atom("be")
+            k = dict(kw, epsilon=0, reduction="none")
+            base = it.call(f, x, y, **k)
+            if base.shape[0] != 2:
+                return False, f"{name}(reduction='none') of a batch of 2 has leading shape {tuple(base.shape)}"
+            for n in range(2):
+                single = it.call(f, x[n:n + 1].clone(), y[n:n + 1].clone(), **k)
+                if not teq(base[n:n + 1], single):
+                    return False, f"{name}: item {n} of the batched 'none' output differs from evaluating that image pair on its own"
+            x2 = x.clone()
+            x2[1] = x[1].mul(3).add(be)
+            got = it.call(f, x2, y, **k)
+            if not teq(got, base):
+                return False, f"{name}: an intensity map 3 x + b applied to the source of item 1 only changes the scores (items are not scored independently)"
+            return True, ""
+        _guard(ctx, "T16.invariance", name + ":batch", f, f"loss={name} batch of 2", thb)
